@@ -115,17 +115,17 @@ def wBefore : FNode := run wC wch3 [.hdr 1, .dat 2]
 def wImage : Store := wBefore.store.applyPrefix 1 (deliver wch3 wBefore (.hdr 2)).2
 def wAll : List Op := [.ev (.hdr 1), .ev (.dat 1), .ev (.hdr 2), .ev (.dat 2), .ev (.hdr 3), .ev (.dat 3)]
 /-- the node restarted on the image, after everything has been delivered again -/
-def wAfter : Option FNode := (start wC wImage).map fun p => runFrom wC wch3 p.1 wAll
+def wAfter : Option FNode := (boot wC wImage).map fun p => runFrom wC wch3 p.1 wAll
 
 /-- the same step, crash after the second write (block and state written, chain height not yet raised): the
 only remaining window in which the state is ahead of the stored chain height -/
 def wImageS : Store := wBefore.store.applyPrefix 2 (deliver wch3 wBefore (.hdr 2)).2
-def wAfterS : Option FNode := (start wC wImageS).map fun p => runFrom wC wch3 p.1 wAll
+def wAfterS : Option FNode := (boot wC wImageS).map fun p => runFrom wC wch3 p.1 wAll
 
 /-- the same crash window at the initial height: header 1 (an empty block) arrives at the fresh node and the
 process dies after the first write of applying block 1 -/
 def wImage1 : Store := (fresh wC).store.applyPrefix 1 (deliver wch3 (fresh wC) (.hdr 1)).2
-def wAfter1 : Option FNode := (start wC wImage1).map fun p => runFrom wC wch3 p.1 wAll
+def wAfter1 : Option FNode := (boot wC wImage1).map fun p => runFrom wC wch3 p.1 wAll
 
 set_option maxRecDepth 100000 in
 theorem wFacts :
@@ -143,14 +143,14 @@ set_option synthInstance.maxSize 1024 in
 theorem wCrashFacts :
     ((deliver wch3 wBefore (.hdr 2)).2.length = 3 ∧ wBefore.store.height = 1 ∧
      recHeight wC wImage = 1 ∧ wImage.height = 1 ∧ holdsBlock wch3 wImage 2 = true ∧
-     (start wC wImage).map (fun p => (p.1.store.height, p.1.lastState.lastHeight)) = some (1, 1) ∧
+     (boot wC wImage).map (fun p => (p.1.store.height, p.1.lastState.lastHeight)) = some (1, 1) ∧
      wAfter.map (fun n => (n.store.height, n.lastState.lastHeight, holdsChain3 n.store, n.alive)) = some (3, 3, true, true)) ∧
     (recHeight wC wImageS = 2 ∧ wImageS.height = 1 ∧ holdsBlock wch3 wImageS 2 = true ∧
-     (start wC wImageS).map (fun p => (p.1.store.height, p.1.lastState.lastHeight)) = some (2, 2) ∧
+     (boot wC wImageS).map (fun p => (p.1.store.height, p.1.lastState.lastHeight)) = some (2, 2) ∧
      wAfterS.map (fun n => (n.store.height, n.lastState.lastHeight, holdsChain3 n.store, n.alive)) = some (3, 3, true, true)) ∧
     (recHeight wC wImage1 = 0 ∧ holdsBlock wch3 wImage1 1 = true ∧
      (wch3 1).map (·.sh.sig.isEmpty) = some false ∧
-     (start wC wImage1).map (fun p => (p.1.store.height, p.1.lastState.lastHeight)) = some (0, 0) ∧
+     (boot wC wImage1).map (fun p => (p.1.store.height, p.1.lastState.lastHeight)) = some (0, 0) ∧
      wAfter1.map (fun n => (n.store.height, n.lastState.lastHeight, holdsChain3 n.store,
        (n.store.getBlock 1).map (·.sh.sig.isEmpty), n.alive)) = some (3, 3, true, some false, true)) := by
   decide +kernel
@@ -165,18 +165,83 @@ theorem wf_chain : wProd.store.height = 4 ∧ (wch 2).map (·.data.txs) = some [
     (wch 4).map (·.data.txs) = some [[7]] := wFacts.2.2.2.2.2.2
 theorem wf_crash : (deliver wch3 wBefore (.hdr 2)).2.length = 3 ∧ wBefore.store.height = 1 ∧
     recHeight wC wImage = 1 ∧ wImage.height = 1 ∧ holdsBlock wch3 wImage 2 = true ∧
-    (start wC wImage).map (fun p => (p.1.store.height, p.1.lastState.lastHeight)) = some (1, 1) ∧
+    (boot wC wImage).map (fun p => (p.1.store.height, p.1.lastState.lastHeight)) = some (1, 1) ∧
     wAfter.map (fun n => (n.store.height, n.lastState.lastHeight, holdsChain3 n.store, n.alive)) = some (3, 3, true, true) :=
   wCrashFacts.1
 theorem wf_crashS : recHeight wC wImageS = 2 ∧ wImageS.height = 1 ∧ holdsBlock wch3 wImageS 2 = true ∧
-    (start wC wImageS).map (fun p => (p.1.store.height, p.1.lastState.lastHeight)) = some (2, 2) ∧
+    (boot wC wImageS).map (fun p => (p.1.store.height, p.1.lastState.lastHeight)) = some (2, 2) ∧
     wAfterS.map (fun n => (n.store.height, n.lastState.lastHeight, holdsChain3 n.store, n.alive)) = some (3, 3, true, true) :=
   wCrashFacts.2.1
 theorem wf_crash1 : recHeight wC wImage1 = 0 ∧ holdsBlock wch3 wImage1 1 = true ∧
     (wch3 1).map (·.sh.sig.isEmpty) = some false ∧
-    (start wC wImage1).map (fun p => (p.1.store.height, p.1.lastState.lastHeight)) = some (0, 0) ∧
+    (boot wC wImage1).map (fun p => (p.1.store.height, p.1.lastState.lastHeight)) = some (0, 0) ∧
     wAfter1.map (fun n => (n.store.height, n.lastState.lastHeight, holdsChain3 n.store,
       (n.store.getBlock 1).map (·.sh.sig.isEmpty), n.alive)) = some (3, 3, true, some false, true) :=
   wCrashFacts.2.2
+
+/-! ## junk data (unauthenticated P2P data) and stale cache files: the witnesses of the defects repaired by
+/repo 4bb2ed2 and 1fa5e4f, and of what remains -/
+
+/-- decidable form of `JunkData` -/
+def checkJunk (ch : PChain) (d : Data) : Bool :=
+  match d.metadata with
+  | none => true
+  | some m => match ch m.height with
+    | none => true
+    | some b => (validateData b.sh d).isSome
+
+theorem junkData_of_check {ch : PChain} {d : Data} (h : checkJunk ch d = true) : JunkData ch d := by
+  intro m hm b hb hv
+  simp only [checkJunk, hm, hb, hv] at h
+  cases h
+
+/-- what anybody can gossip for height 2: the genuine metadata of block 2 (chain id, height, time, last data hash)
+with another transaction -/
+def wJunk2 : Data := match wch3 2 with
+  | some b => { b.data with txs := [[122]] }
+  | none => {}
+
+/-- the former halt: header 1, junk data for height 2, then the genuine header 2 (before /repo 4bb2ed2 the loop
+terminated here); then the genuine data and block 3 -/
+def wJunkOps : List JOp := [.op (.ev (.hdr 1)), .junk wJunk2, .op (.ev (.hdr 2))]
+def wJunkRest : List JOp := [.op (.ev (.dat 2)), .op (.ev (.hdr 3)), .op (.ev (.dat 3))]
+
+/-- what remains: the genuine data of block 2 is cached (and marked seen) first, junk data for height 2 replaces it,
+header 2 arrives (the junk is dropped); every later delivery of the genuine data is dropped as already seen -/
+def wJunkStall : List JOp :=
+  [.op (.ev (.hdr 1)), .op (.ev (.dat 2)), .junk wJunk2, .op (.ev (.hdr 2))] ++ wAll.map .op ++ wAll.map .op
+
+/-- stale cache files: header 1, header 3 and data 3 are delivered, the node is stopped cleanly (generation `wGen`
+of the caches: header 3, data 3 cached and seen) and restarted; data 2 and header 2 arrive and blocks 2 and 3 are
+applied — the process dies after 4 of the 6 writes (block 3 saved, its state not) -/
+def wGen : FNode := runOps wC wch3 [.ev (.hdr 1), .ev (.hdr 3), .ev (.dat 3), .restart]
+def wStaleBefore : FNode := runFrom wC wch3 wGen [.ev (.dat 2)]
+def wStaleImage : Store := wStaleBefore.store.applyPrefix 4 (deliver wch3 wStaleBefore (.hdr 2)).2
+
+set_option maxRecDepth 100000 in
+set_option synthInstance.maxSize 1024 in
+theorem wJunkFacts :
+    (checkJunk wch3 wJunk2 = true ∧
+     (runJ wC wch3 wJunkOps).alive = true ∧ (runJ wC wch3 wJunkOps).store.height = 1 ∧
+     (runJ wC wch3 (wJunkOps ++ wJunkRest)).store.height = 3 ∧ holdsChain3 (runJ wC wch3 (wJunkOps ++ wJunkRest)).store = true) ∧
+    ((runJ wC wch3 wJunkStall).store.height = 1 ∧ (runJ wC wch3 wJunkStall).alive = true ∧
+     ready wC wch3 3 (evsOf (opsOf wJunkStall)) = 3) ∧
+    ((deliver wch3 wStaleBefore (.hdr 2)).2.length = 6 ∧ wGen.store.height = 1 ∧ recHeight wC wStaleImage = 2 ∧
+     (start wC wStaleImage wGen).map (fun p => (p.1.store.height, (runFrom wC wch3 p.1 wAll).store.height)) = some (2, 2) ∧
+     (boot wC wStaleImage wGen).map (fun p => (p.1.store.height, p.1.lastState.lastHeight, holdsChain3 p.1.store, p.1.alive))
+       = some (3, 3, true, true)) := by
+  decide +kernel
+
+theorem wf_junk : checkJunk wch3 wJunk2 = true ∧
+    (runJ wC wch3 wJunkOps).alive = true ∧ (runJ wC wch3 wJunkOps).store.height = 1 ∧
+    (runJ wC wch3 (wJunkOps ++ wJunkRest)).store.height = 3 ∧
+    holdsChain3 (runJ wC wch3 (wJunkOps ++ wJunkRest)).store = true := wJunkFacts.1
+theorem wf_junkStall : (runJ wC wch3 wJunkStall).store.height = 1 ∧ (runJ wC wch3 wJunkStall).alive = true ∧
+    ready wC wch3 3 (evsOf (opsOf wJunkStall)) = 3 := wJunkFacts.2.1
+theorem wf_stale : (deliver wch3 wStaleBefore (.hdr 2)).2.length = 6 ∧ wGen.store.height = 1 ∧
+    recHeight wC wStaleImage = 2 ∧
+    (start wC wStaleImage wGen).map (fun p => (p.1.store.height, (runFrom wC wch3 p.1 wAll).store.height)) = some (2, 2) ∧
+    (boot wC wStaleImage wGen).map (fun p => (p.1.store.height, p.1.lastState.lastHeight, holdsChain3 p.1.store, p.1.alive))
+      = some (3, 3, true, true) := wJunkFacts.2.2
 
 end Sync
